@@ -43,12 +43,14 @@ SecondCallSame == Clause("SecondCallSame", ~(Case /\ Good) \/ R.second_same)
 \* the labels the reported assignments range over: every mentioned label for a plain dict; for a model object whose
 \* bookkeeping is stale anything between the variables of the function and model.variables (the same for all of them)
 KS == IF R.kind = "dict" \/ Len(R.sols) = 0 THEN K ELSE SolKeys(1)
+\* (a model whose terms are constant but whose bookkeeping still reports variables - a cancelled term - falls under neither
+\* sentence of the statement unambiguously and is not judged)
 \* no valid assignment <=> objective None.  For a model without variables the statement's other sentence applies ("a
 \* constant model yields the constant with an empty assignment", the code does not consult `valid` there), so the two
 \* sentences are only judged where they do not compete.
-NoneIffNoValid == Clause("NoneIffNoValid", ~(Case /\ Good /\ K # {}) \/ (HasObj <=> AnyValid))
+NoneIffNoValid == Clause("NoneIffNoValid", ~(Case /\ Good /\ VarsOf(M) # {}) \/ (HasObj <=> AnyValid))
 \* the reported solutions are valid, attain the objective, and range over exactly the model's variables
-SolutionsOK == Clause("SolutionsOK", ~(Case /\ Good /\ HasObj /\ K # {}) \/
+SolutionsOK == Clause("SolutionsOK", ~(Case /\ Good /\ HasObj /\ VarsOf(M) # {}) \/
     /\ Len(R.sols) >= 1
     /\ \A q \in 1..Len(R.sols) : SolKeys(q) = KS
     /\ \A q \in 1..Len(R.sols) : /\ SolOn(q) \subseteq SolKeys(q)
@@ -59,7 +61,7 @@ SingleWhenNotAll == Clause("SingleWhenNotAll", ~(Case /\ Good /\ ~R.all /\ HasOb
 \* a constant model yields the constant with an empty assignment
 ConstantModel == Clause("ConstantModel", ~(Case /\ Good /\ K = {}) \/ (HasObj /\ Obj = Offset(M) /\ Len(R.sols) >= 1 /\ \A q \in 1..Len(R.sols) : SolKeys(q) = {}))
 \* per assignment: nothing valid lies below the objective; with all_solutions every valid minimiser is reported
-IsMinimum == Clause("IsMinimum", ~(Point /\ Good /\ K # {}) \/ (Valid(x) => (HasObj /\ Value(x) >= Obj)))
+IsMinimum == Clause("IsMinimum", ~(Point /\ Good /\ VarsOf(M) # {}) \/ (Valid(x) => (HasObj /\ Value(x) >= Obj)))
 AllMinimisers == Clause("AllMinimisers", ~(Point /\ Good /\ R.all /\ HasObj) \/
     ((Valid(x) /\ Value(x) = Obj) => \E q \in 1..Len(R.sols) : SolOn(q) = x \cap KS /\ SolKeys(q) = KS))
 =============================================================================
